@@ -1,4 +1,5 @@
 import SdxModel.Microdata
+import SdxModel.Stitch
 /-!
 # `syndiffix/synthesizer.py` — `Synthesizer.sample()` for one cluster
 
@@ -36,5 +37,27 @@ def materializeTree (E : Env α) (F : Forest α) (convs : List (Conv α)) (comb 
       match (generateMicrodata E cvs nulls buckets).run mstream with
       | .error e => .error e
       | .ok (rows, rest) => .ok (rows, drawn, rest.length)
+
+/-- `materialize_tree` as `build_table` calls it: two RNGs derived from the forest's main unsafe RNG (one `random()` each,
+consumed from the main stream), the columns sorted -/
+def materializeGM (E : Env α) (F : Forest α) (convs : List (Conv α)) (cols : List Nat)
+    (streams : List Nat × List (Draw α)) : GM α (MTable (Cell α) α) := do
+  let _ ← drawUnit
+  let _ ← drawUnit
+  let comb := sortAscStable (fun a b => decide (a < b)) cols
+  match materializeTree E F convs comb streams.1 streams.2 with
+  | .error e => throw e
+  | .ok (rows, _, _) => return (rows, comb)
+
+/-- `build_table` (what `Synthesizer.sample()` returns before the `DataFrame` is made): the initial cluster, then every
+derived cluster materialised and stitched (or, without stitch columns, patched) onto the table so far. `streams` are the
+recorded draws of the derived RNGs, one pair per materialised cluster in order; the monad's stream is the main unsafe RNG. -/
+def buildTable (E : Env α) (F : Forest α) (convs : List (Conv α)) (isIntegral : List Bool) (entropy : List α) (threshRel : α)
+    (cl : Clusters) (streams : List (List Nat × List (Draw α))) : GM α (MTable (Cell α) α) := do
+  let acc ← materializeGM E F convs cl.initial (streams.getD 0 ([], []))
+  (List.zip cl.derivedClusters (List.range cl.derivedClusters.length)).foldlM (fun acc (p : DerivedCluster × Nat) => do
+    let right ← materializeGM E F convs (p.1.stitch ++ p.1.derived) (streams.getD (p.2 + 1) ([], []))
+    if p.1.stitch.isEmpty then doPatch acc right
+    else doStitch F.snapped isIntegral entropy threshRel acc right p.1) acc
 
 end
